@@ -147,6 +147,10 @@ def run(ctx):
         key = f"{pt['proc']}:{pt['proj']}:{pt['kind']}_{pt['flav']}:nf{pt['nf']}:{clause}"
         ctx.violation(key, f"LO row of {pt['kind']}_{pt['flav']} ({pt['proc']}, projectile {pt['proj']}) is not the "
                       f"parton-model row: {clause}", dict(kind="C02", obligation=o, observed=ln))
+    # 5. conformance of the assembly model itself (all orders, schemes, heavynesses, a nuclear target): Kernels.Assemble(cell)
+    #    against the real Combiner.collect_elems() - class keys, summed weights, number of flavours (notes, see Trace_Asm)
+    from .. import assembly
+    assembly.run(ctx, "C02", ctx.quick)
 
 
 def replay(ctx, obj):
